@@ -1040,8 +1040,11 @@ def fingerprints():
                 toks = load(rel)
                 raw = open(os.path.join(SRC, rel), encoding="utf-8").read()
                 if rel == "function/builtin.rs":
-                    # the macros are not fn items: fingerprint the whole file's token text
-                    rows.append((rel + "::<file>", hashlib.sha256(text_of(toks).encode()).hexdigest()[:32]))
+                    # the macros are not fn items: fingerprint the whole file's token text — unless `builtin_function` (the
+                    # dispatch, its closures and the macro expansions) is translated and proved on this run
+                    bf = find_fns(toks, "builtin_function")
+                    if not (bf and (rel, bf[0][0][0].line) in translated):
+                        rows.append((rel + "::<file>", hashlib.sha256(text_of(toks).encode()).hexdigest()[:32]))
                     continue
                 _ = raw
                 for name in (names or all_fn_names(toks)):
